@@ -154,7 +154,7 @@ def work_c17(prop, tier, seed, widx, nworkers):
                         acc.nontrivial.add(hash((materialize.prog_hash(v), val)) & 0xFFFFFFFFFFFF)
                     if f is not None:
                         acc.findings.append({'kind': f['kind'], 'detail': dict(f['detail'], modes=modes), 'prop': f['prop'],
-                                             'tags': base.get('tags', []), 'case': case})
+                                             'tags': sorted(set(base.get('tags', [])) | ref.dyn), 'case': case})
                     if len(acc.samples) < 1 and vi == 4:
                         acc.samples.append({'modes': modes, 'val': val, 'outcome': repr(oc)[:200],
                                             'expected': repr(ref.outcome)[:200], 'tags': base.get('tags', [])})
@@ -163,7 +163,7 @@ def work_c17(prop, tier, seed, widx, nworkers):
                 if len(kinds) > 1 or len(vals) > 1:
                     acc.findings.append({'kind': 'mode_dependent_outcome',
                                          'detail': {'classes': {str(k): repr(c)[:120] for k, c in classes.items()}},
-                                         'prop': ['C17'], 'tags': base.get('tags', []),
+                                         'prop': ['C17'], 'tags': sorted(set(base.get('tags', [])) | ref.dyn),
                                          'case': {'prog': base, 'val': val, 'what': 'real_all'}})
     finally:
         loop.close()
